@@ -13,7 +13,8 @@ EXPLANATION = (
     "encoding, the message and the coins on top of the optional custom transcript / the default label; "
     "(R3, provenance) threshold, encrypted message, encrypted coins and MAC used by recovery all stem from the one "
     "share obtained first from the collection, the interpolation threshold is that share's threshold and the "
-    "decryption key is the interpolation result; (R4) the J stored in a share is the unmodified send_mac output; (R5) Sharks::recover stores shares in collection order and interpolates a window starting at the first stored share, so the share that supplies the ciphertext always contributes its own point (alterations of its x / y change the key).  "
+    "decryption key is the interpolation result; (R4) the J stored in a share is the unmodified send_mac output; (R5) Sharks::recover stores shares in collection order and interpolates a window starting at the first stored share, so the share that supplies the ciphertext always contributes its own point (alterations of its x / y change the key); the share collection reaches Sharks::recover completely and in the caller's order.  "
+    "(R6) the Shamir share decoder takes x and every y_i from complete consecutive 24-byte windows through the canonical decoder and refuses out-of-range elements, so no byte of the encoded point / values is ignored.  "
     "NOT decided: MAC unforgeability; the behaviour for specific byte faults (follows from R1-R3 only under the "
     "cryptographic assumption).")
 ASSUMPTIONS = ["strobe_rs::Strobe::recv_mac returns Ok iff the MAC matches the transcript (trusted)"]
@@ -197,7 +198,27 @@ def run(ctx):
     ctx.add("C05.R5", rootk + "#first-share-is-interpolated", okw,
             "the first share (which supplies threshold, ciphertexts and MAC) must be among the interpolated points, otherwise its "
             "share point / value are not authenticated: %s" % det, interp[0]["at"] if interp else ctx.fn(rootk).loc, sample=det)
-    ctx.floor("C05.R5", 1)
+    # the caller's first share stays the first share on the way down: share_recover -> adss::recover -> Sharks::recover
+    for root_, callee_, argi_ in (("sta_rs::share_recover", "adss::recover", 0), ("adss::recover", "star_sharks::Sharks::recover", 1)):
+        e_, r_, _, f_ = ctx.root(root_)
+        cs_ = [e for e in Q.calls(e_, callee_) if e["frame"] == f_.key]
+        ok_ = len(cs_) == 1
+        det_ = "%d call(s)" % len(cs_)
+        if ok_:
+            a_ = cs_[0]["argv"][argi_]
+            b_ = Q.whole_of(a_, e_, ordered=True)
+            ok_ = b_ is not None and Q.path_of(b_) == "shares"
+            det_ = "argument %s" % S(a_, 5)
+        ctx.add("C05.R5", "%s>%s#collection-order-preserved" % (root_, callee_), ok_,
+                "the shares must be handed on completely and in the caller's order (a re-keyed, sorted or reversed collection makes "
+                "another share `the first share`, which decides threshold, ciphertexts and MAC): %s" % det_,
+                cs_[0]["at"] if cs_ else ctx.fn(root_).loc, sample=det_)
+    ctx.floor("C05.R5", 3)
+    # ---- R6: no byte of an encoded share point / value is ignored by the decoder (an altered byte changes the decoded
+    # element or makes the decoder refuse) ------------------------------------------------------------------------------
+    from . import c08
+    c08.shamir_reader_rules(ctx, "C05.R6", "C05.R6")
+    ctx.floor("C05.R6", 4)
     ctx.floor("C05.R1", 3)
     ctx.floor("C05.R2", 8)
     ctx.floor("C05.R3", 7)
